@@ -285,7 +285,7 @@ impl<'a, 'b> Gen<'a, 'b> {
     fn float_lit(&mut self) -> E {
         let v = match self.c.below(8) {
             0..=4 => self.c.range(-8, 20) as f64 / 2.0,
-            5 => *self.c.pickv(&[0.0, -0.0, 1e10, 1.5e-3, 123456.789]),
+            5 => *self.c.pickv(&[0.0, -0.0, 1e10, 1.5e-3, 123456.789, 1e-17, -1e-17, 5e-324, 2.2250738585072014e-308]),
             _ => *self.c.pickv(&[f64::INFINITY, f64::NEG_INFINITY, f64::NAN, 1e308, 9007199254740992.0]),
         };
         E::Float(v)
@@ -1240,16 +1240,28 @@ impl<'a, 'b> Gen<'a, 'b> {
         let cn = self.fresh_name("cnt");
         let start = self.c.range(0, 5);
         let step = self.c.range(1, 3);
-        let def = S::Let(
-            mk.clone(),
-            E::Fn(
-                vec!["s".into()],
-                vec![
-                    S::Let("n".into(), id("s")),
-                    S::Expr(E::Fn(vec![], vec![S::Expr(assign(id("n"), bin("+", id("n"), E::Int(step)))), S::Expr(id("n"))])),
-                ],
-            ),
-        );
+        let style = self.c.below(7);
+        // a parameter spelled like its function hides the function inside the body
+        if style >= 5 {
+            let f = self.fresh_name("w");
+            let k = self.c.range(1, 9);
+            let body = vec![S::Expr(bin("+", id(&f), E::Int(k)))];
+            let def = if style == 5 { S::FnDef(f.clone(), vec![f.clone()], body) } else { S::Let(f.clone(), E::Fn(vec![f.clone()], body)) };
+            self.declare(&f, Ty::Fn(1, Box::new(Ty::Int)), false);
+            let v = vec![def, S::Expr(call("push", vec![id("obs"), E::Call(Box::new(id(&f)), vec![E::Int(start)])]))];
+            return S::Block(vec![]).then(v);
+        }
+        let bump = S::Expr(assign(id("n"), bin("+", id("n"), E::Int(step))));
+        // where the captured variable lives and what surrounds its assignment inside the closure
+        let closure_body = match style {
+            1 => vec![bump, S::Block(vec![S::Let("z".into(), id("n"))]), S::Expr(id("n"))],
+            2 => vec![S::Block(vec![bump]), S::Expr(id("n"))],
+            3 => vec![bump, S::Expr(E::If(Box::new(bin(">", id("n"), E::Int(0))), vec![S::Let("y".into(), E::Int(1))], None)), S::Block(vec![]), S::Expr(id("n"))],
+            _ => vec![bump, S::Expr(id("n"))],
+        };
+        let inner = vec![S::Let("n".into(), id("s")), S::Expr(E::Fn(vec![], closure_body))];
+        let outer_body = if style == 1 || style == 3 || style == 4 { vec![S::Block(inner)] } else { inner };
+        let def = S::Let(mk.clone(), E::Fn(vec!["s".into()], outer_body));
         self.declare(&mk, Ty::Fn(1, Box::new(Ty::Fn(0, Box::new(Ty::Int)))), false);
         self.declare(&cn, Ty::Fn(0, Box::new(Ty::Int)), false);
         let calls = 1 + self.c.below(3);
